@@ -1539,23 +1539,24 @@ fn mark_of(i: usize, l: usize, c: usize, bo: Option<usize>) -> saphyr_parser::Ma
     saphyr_parser::Marker::new(i, l, c).with_byte_offset(bo)
 }
 
-fn conv_case(sink: &mut Sink, s: &saphyr_parser::Marker, e: &saphyr_parser::Marker) {
+/// `text` = the in-memory input handed to the conversion (`None` = reader input: no normalisation)
+fn conv_case(sink: &mut Sink, text: Option<&str>, s: &saphyr_parser::Marker, e: &saphyr_parser::Marker) {
     let span = saphyr_parser::Span::new(*s, *e);
-    let ans = match catch(|| serde_saphyr::verif_hooks::locs::location_from_span(&span)) {
+    let ans = match catch(|| serde_saphyr::verif_hooks::locs::location_from_span_in(&span, text)) {
         Ok(l) => loc_tok(&l),
         Err(_) => "panic".into(),
     };
-    sink.case(&format!("locs conv {} {}", mark_tok(s), mark_tok(e)), &ans);
+    sink.case(&format!("locs conv {} {} {}", text.map(hex).unwrap_or_else(|| "-".into()), mark_tok(s), mark_tok(e)), &ans);
 }
 
-fn scanerr_case(sink: &mut Sink, m: &saphyr_parser::Marker, ua: bool) {
+fn scanerr_case(sink: &mut Sink, text: Option<&str>, m: &saphyr_parser::Marker, ua: bool) {
     let info = if ua { "while parsing node, found unknown anchor" } else { "did not find expected node content" };
     let err = saphyr_parser::ScanError::new(*m, info.to_string());
-    let ans = match catch(|| serde_saphyr::verif_hooks::locs::from_scan_error(err)) {
+    let ans = match catch(|| serde_saphyr::verif_hooks::locs::from_scan_error_in(err, text)) {
         Ok(e) => format!("{} {}", crate::errs::kind(&e), e.location().map(|l| loc_tok(&l)).unwrap_or_else(|| "L0.0.0.0.-.-".into())),
         Err(_) => "panic".into(),
     };
-    sink.case(&format!("locs scanerr {} {}", b(ua), mark_tok(m)), &ans);
+    sink.case(&format!("locs scanerr {} {} {}", b(ua), text.map(hex).unwrap_or_else(|| "-".into()), mark_tok(m)), &ans);
 }
 
 /// marks of the real parser against `posOf` (one op per text), the end-of-stream mark, and the conversions
@@ -1590,15 +1591,27 @@ fn text_cases(sink: &mut Sink, text: &str, marks: &[saphyr_parser::Marker], end_
         let all: Vec<String> = (0..=n).map(|i| { let (l, c) = ix.line_col(i); format!("{}.{}.{}", l, c - 1, ix.byte_of[i]) }).collect();
         sink.case(&format!("locs posall {}", hex(text)), &all.join(" "));
     }
-    // conversions on pairs of real marks
+    // conversions on pairs of real marks, with the text (as `LiveEvents` does for string input) and without
     if *conv_budget > 0 && marks.len() >= 2 {
         for _ in 0..3 {
             let i = rng.below(marks.len() - 1);
             let (s, e) = (marks[i], marks[i + 1]);
-            if e.index() >= s.index() { conv_case(sink, &s, &e); *conv_budget -= 1; }
+            if e.index() >= s.index() { conv_case(sink, if rng.chance(1, 5) { None } else { Some(text) }, &s, &e); *conv_budget -= 1; }
         }
         let m = marks[rng.below(marks.len())];
-        scanerr_case(sink, &m, rng.chance(1, 4));
+        scanerr_case(sink, Some(text), &m, rng.chance(1, 4));
+        // the last marks of the stream (where the scanner has forced its new line), and a mark of the text
+        // against a different text (the conversion must not trust what it cannot see)
+        let last = marks[marks.len() - 1];
+        conv_case(sink, Some(text), &last, &last);
+        scanerr_case(sink, Some(text), &last, false);
+        if let Some(em) = end_mark { conv_case(sink, Some(text), em, em); conv_case(sink, None, em, em); *conv_budget = conv_budget.saturating_sub(2); }
+        if rng.chance(1, 4) {
+            let other: String = text.chars().rev().collect();
+            conv_case(sink, Some(&other), &last, &last);
+            let cut: String = text.chars().take(text.chars().count() / 2).collect();
+            conv_case(sink, Some(&cut), &last, &last);
+        }
     }
 }
 
@@ -1616,12 +1629,20 @@ fn synthetic_conv(sink: &mut Sink, rng: &mut Rng, thorough: bool) {
         let eb = if rng.chance(1, 16) { sb.map(|b| b.saturating_sub(1 + rng.below(3))) } else { eb };
         let s = mark_of(si, sl, sc, sb);
         let e = mark_of(si + len, sl + rng.below(3), rng.below(50), eb);
-        conv_case(sink, &s, &e);
-        if k % 5 == 0 { scanerr_case(sink, &s, k % 10 == 0); }
+        conv_case(sink, None, &s, &e);
+        if k % 5 == 0 { scanerr_case(sink, None, &s, k % 10 == 0); }
+        if k % 7 == 0 {
+            // a synthetic mark against a small text: column 0 / byte offsets inside, at and beyond the end, on and off
+            // character boundaries, after a break and after other characters
+            let t = *rng.pick(&["a", "ab\n", "é", "a\r\nbé", "x\ry", "日本\n語", "", "a\n\n", "😀"]);
+            let m = mark_of(rng.below(6), 1 + rng.below(4), if rng.chance(2, 3) { 0 } else { rng.below(3) }, if rng.chance(1, 8) { None } else { Some(rng.below(t.len() + 3)) });
+            conv_case(sink, Some(t), &m, &m);
+            scanerr_case(sink, Some(t), &m, false);
+        }
         if k % 97 == 0 {
             // end before start: `Span::len` underflows
             let e2 = mark_of(si.saturating_sub(1 + rng.below(3)), sl, sc, sb);
-            if e2.index() < s.index() { conv_case(sink, &s, &e2); sink.count("conv.end_before_start"); }
+            if e2.index() < s.index() { conv_case(sink, None, &s, &e2); sink.count("conv.end_before_start"); }
         }
     }
 }
@@ -1672,7 +1693,7 @@ fn generate(a: &Args) -> i32 {
     let mut o = Oracle { out: vec![], per_id: BTreeMap::new() };
     let mut distinct = BTreeSet::new();
     let mut conv_budget = if a.thorough { 200000 } else { 12000 };
-    let n_docs = if a.thorough { 30000 } else { 1500 };
+    let n_docs = if a.thorough { 20000 } else { 1500 };
     let ra = ra_ty();
 
     small_texts(&mut sink, &mut rng, a.thorough);
@@ -1759,7 +1780,7 @@ fn one_document(sink: &mut Sink, o: &mut Oracle, distinct: &mut BTreeSet<(String
     let r = run_impl(&rd.input, sty);
     let ans = answer(&r);
     sink.count(&format!("sp.{}", ans.split(' ').take(if ans.starts_with("err") { 2 } else { 1 }).collect::<Vec<_>>().join(".")));
-    sink.case(&format!("locs sp {} {} | {}", cfg().tokens(false), sty.tokens(), items), &ans);
+    sink.case(&format!("locs sp {} {} {} | {}", cfg().tokens(false), sty.tokens(), hex(&rd.text), items), &ans);
     if nev > 6 && distinct.insert((sty.tokens(), items.clone())) && (ans.contains(" p L") || ans.starts_with("err")) { sink.count("distinct_nontrivial"); }
     let dc = DocCtx { input: &rd.input, ix: &ix, info: &rd.info };
     match &r {
@@ -1802,7 +1823,7 @@ fn mutant(sink: &mut Sink, o: &mut Oracle, sty: &STy, doc: &N, rd: &Rendered, le
     let r = run_impl(&rd.input, sty);
     let ans = answer(&r);
     sink.count(&format!("mutant.{}", ans.split(' ').take(2).collect::<Vec<_>>().join(".")));
-    sink.case(&format!("locs sp {} {} | {}", cfg().tokens(false), sty.tokens(), items), &ans);
+    sink.case(&format!("locs sp {} {} {} | {}", cfg().tokens(false), sty.tokens(), hex(&rd.text), items), &ans);
     let dc = DocCtx { input: &rd.input, ix: &ix, info: &rd.info };
     let Ok(Err(e)) = &r else {
         if let Err(msg) = &r { o.fail("C16-panic", "panic", &rd.input, msg.clone(), "no panic".into()); }
@@ -1885,7 +1906,7 @@ fn damaged(sink: &mut Sink, o: &mut Oracle, conv_budget: &mut usize, rng: &mut R
     let r = run_impl(text, &sty);
     let ans = answer(&r);
     sink.count(&format!("damaged.{}", ans.split(' ').take(if ans.starts_with("err") { 2 } else { 1 }).collect::<Vec<_>>().join(".")));
-    sink.case(&format!("locs sp {} {} | {}", cfg().tokens(false), sty.tokens(), items), &ans);
+    sink.case(&format!("locs sp {} {} {} | {}", cfg().tokens(false), sty.tokens(), hex(text.strip_prefix('\u{feff}').unwrap_or(text)), items), &ans);
     let info: Vec<Info> = vec![];
     let dc = DocCtx { input: text, ix: &ix, info: &info };
     match &r {
